@@ -8,14 +8,14 @@ def ml(n, tier):
              models=['m_transit.c', 'm_throw.c', 'm_env.c'], libmodels=['m_string.c', 'm_stl.c'], unwind=24, unwindset=['strlen.0:40'], tier=tier, timeout=280,
              bounds='every message of exactly %d bytes over {a, newline} in a real libfmt memory buffer; add_metadata_to_multi_line_logs symbolic; real _dispatch_transit_event_to_sinks + _process_multi_line_message, _write_log_statement observed through a hook' % n,
              what='on: one _write_log_statement per message line with exactly the sub-view of that line (a final newline opens no extra line); off: one call with at most one trailing newline removed')
-def slots(tier):
-    return Q('attribute_slots', 'C12_slots.cpp', 'h_slots', byteloops=True,
+def slots(n1, second, tier):
+    return Q('attribute_slots_n%d_%d' % (n1, second), 'C12_slots.cpp', 'h_slots', defines=['N1=%d' % n1, 'SECOND_HAS=%s' % ('true' if second else 'false')], byteloops=True,
              hooks=[r'^_ZN5quill2v96detail18TimestampFormatter16format_timestampENSt6chrono8duration=vh_ts_format', r'^_ZN8fmtquill3v1110vformat_toISt20back_insert_iteratorINS0_19basic_memory_bufferIcLm512E=vh_vformat_to'],
              forbid=[r'basic_memory_bufferIcLm512ENS0_6detail9allocatorIcEEE4grow', r'16PatternFormatter(C2|D2|12_set_pattern|27_generate_fmt_format_string)'],
              models=['m_throw.c', 'm_env.c'], libmodels=['m_string.c', 'm_stl.c'], unwind=20, unwindset=['strlen.0:20'], tier=tier, timeout=600,
-             bounds='ANY subset of the 16 attributes in use (symbolic mask), reversed slot order, two consecutive statements with different values everywhere; first statement 0..2 named arguments, second none (null) or one',
+             bounds='ANY subset of the 16 attributes in use (symbolic mask), reversed slot order, two consecutive statements with different values everywhere; first statement %d named argument(s), second %s' % (n1, 'one' if second else 'none (null pointer: a slot that never held named args)'),
              what='real PatternFormatter::format: after each call the argument slot of every attribute used by the pattern holds this statement\'s own value (time via the timestamp formatter, file/line/function/path/source-location forms from the metadata, level name and code, logger, thread id/name, process id, tags, message, named args rendered "k: v, q: w" and empty when the statement has none), and the libfmt renderer is invoked exactly once')
-QUERIES = [slots('dev'), ml(2, 'quick'), ml(4, 'quick'), ml(6, 'thorough')]
+QUERIES = [slots(2, 0, 'unregistered'), ml(2, 'quick'), ml(4, 'quick'), ml(6, 'thorough')]
 BOUNDS = 'messages of 2,4 (quick) / 6 (thorough) bytes over {a, newline}'
 OUTSIDE = 'the pattern rewrite (_generate_fmt_format_string, _set_pattern), the slot table, attribute values, libfmt width/alignment rendering, source-location accessors: need a libfmt model and heavy std::string/unordered_map encodings that were not built - NOT claimed'
 ASSUMPTIONS = ['BackendWorker built by its real constructor; logger/formatter/event objects laid out directly', '_write_log_statement replaced by a recording hook with the same signature (irpass -r)']
